@@ -122,7 +122,10 @@ def create_import_function(report: Report, sandbox):
         elif report.submission and filename in report.submission.files:
             if module_name not in sys.modules:
                 contents = report.submission.files[filename]
-                return sandbox._import(contents, module_name, filename, sandbox.threaded)
+                # As with a regular import, the module is executed once and
+                # then found in sys.modules (which is restored afterwards)
+                sys.modules[module_name] = sandbox._import(contents, module_name, filename, sandbox.threaded)
+            return sys.modules[module_name]
         return ORIGINAL_BUILTINS['__import__'](module_name, globals, locals, fromlist, level)
     return _restricted_import
 
